@@ -1066,7 +1066,8 @@ impl FragLexer {{
 # --------------------------------------------------------------------------------------------------
 # function::get_value(): string arms (C16)
 # --------------------------------------------------------------------------------------------------
-SCALAR_ARMS = ['Substring', 'Length', 'Coalesce', 'Concat', 'ConcatWs', 'Replace', 'Trim', 'LTrim', 'RTrim']
+SCALAR_ARMS = ['Substring', 'Length', 'Coalesce', 'Concat', 'ConcatWs', 'Replace', 'Trim', 'LTrim', 'RTrim',
+               'Lower', 'Upper', 'InitCap', 'Abs', 'Least', 'Greatest', 'Sqrt']
 
 
 def unit_scalar(inj, scratch):
